@@ -39,11 +39,11 @@ void Normalizer::Normalize(SyntaxTree::Node& root) {
 }
 
 void Normalizer::Quantifier(SyntaxTree::Node& quant) {
-  const auto declToken = quant(0).token.id;
-  if (declToken == TokenID::NT_TUPLE_DECL) {
-    TupleDeclaration(quant(0), quant(2));
-  } else if (declToken == TokenID::NT_ENUM_DECL) {
+  if (quant(0).token.id == TokenID::NT_ENUM_DECL) {
     EnumDeclaration(quant);
+  }
+  if (quant(0).token.id == TokenID::NT_TUPLE_DECL) {
+    TupleDeclaration(quant(0), quant(2));
   }
 }
 
